@@ -350,6 +350,23 @@ def gen_cases(tier: str, seed: int) -> List[Dict]:
                 continue
             shape = rng.choice([(), (), (2,)])
             add("rnd", names, spec("d", names, dv, shape, 3), dividend=spec("n", names, de, rng.choice([(), shape]), 3))
+    # strided dividend / divisor arrays (reversed axes in 2-d..4-d, axes rotated by one): literal coefficients, every element distinct
+    for shape, view in [((2, 3), "T"), ((2, 3, 2), "cyc"), ((2, 1, 2, 2), "T"), ((2, 2, 2, 2), "T"), ((2, 2, 3), "swap")]:
+        dvd = spec("n", ("q0",), [[0], [1], [2]], shape, 0, lit=1.0)
+        k_ = 0
+        for col in dvd["slots"]:
+            for i in range(len(col)):
+                k_ += 1
+                col[i] = (k_ % 7) - 3 if (k_ % 7) != 3 else 4
+        dvd["view"] = view
+        add("view", ("q0",), spec("d", ("q0",), [[0], [1]], (), 0, lit=1.0), dividend=dvd)
+        dvs = spec("d", ("q0",), [[0], [1]], shape, 0, lit=1.0)
+        for col in dvs["slots"]:
+            for i in range(len(col)):
+                k_ += 1
+                col[i] = (k_ % 5) + 1
+        dvs["view"] = view
+        add("view-divisor", ("q0",), dvs, dividend=spec("n", ("q0",), [[0], [2]], (), 0, lit=2.0))
     # overflowing / non-finite coefficients (native only): termination, see body_special
     for k in range(13):
         n += 1
